@@ -287,6 +287,8 @@ def _install():
     _reg("skip_last_with_time", "any", lambda c: A(c.rnd.choice([5, 20])), "time")
     _reg("timeout", "any", lambda c: A(c.rnd.choice([7, 20]), c.source("num", "other") if c.coin() else None), "time")
     _reg("timeout_with_mapper", "any", lambda c: A(c.trigger(), c.cb(c.memo(lambda v: c.trigger()))), "time")
+    _reg("timeout_with_mapper_other", "any", lambda c: A(c.trigger(), c.cb(c.memo(lambda v: c.trigger())), c.source("num", "other")), "time",
+         real="timeout_with_mapper")      # with a fallback sequence (a logged source: it must be released like any other)
     # ---- windows / buffers / groups
     _reg("window_with_count", "any", lambda c: A(c.rnd.randint(1, 3), c.rnd.randint(1, 3)), "obs_out")
     _reg("buffer_with_count", "any", lambda c: A(c.rnd.randint(1, 3), c.rnd.randint(1, 3)))
